@@ -248,7 +248,8 @@ Definition cli_exchange (auth : bool) (lia : Z) (lh : bytes) (ria : Z) (rh : byt
             | _, _ => false
             end in
           let accepted := match res with [VZ 0; VZ j; VZ _] => Some (Z.to_nat j) | _ => None end in
-          let oracle := C13_cli_ok auth (pv_rx req) (pv_mac req) (map (fun r => (pv_rx (fst r), pv_mac (fst r))) resps) accepted in
+          let oracle := C13_cli_ok auth (pv_rx req) (pv_mac req) (map (fun r => (pv_rx (fst r), pv_mac (fst r))) resps) accepted
+                        && C13_cli_from_queried_ok lia lh ria rh (map (fun r => (pv_rx (fst r), pv_mac (fst r))) resps) accepted in
           Some (agree, oracle)
       | _, _ => None
       end
